@@ -38,6 +38,9 @@ def obligations(tier):
     for name, kw, extra, n in (("BBANDS", dict(period=2), dict(fullname_override="my.BB"), 6), ("ATR", dict(period=2), dict(name_suffix="a.b"), 6), ("KC", dict(period=2), dict(name_suffix="v1.5"), 6),
                                ("STDEV", dict(period=2), dict(name_suffix="1.0"), 6), ("donchian", dict(period=2), dict(fullname_override="dc.2"), 5), ("Supertrend", dict(period=2), dict(name_suffix="s.t"), 5)):
         obs.append(Ob(f"{name}{kw}{extra}/n={n}", dict(spec=["ind", name, kw], n=n, extra=extra), DEF, weight=n * 3, budget_s=300, max_paths=100000))
+    # the same definitions over the buckets of a collapsing timeframe that is fed live (one raw candle per append)
+    for name, kw, n in (("TR", dict(), 6), ("ATR", dict(period=2), 8), ("KC", dict(period=2), 8), ("BBANDS", dict(period=2), 8), ("donchian", dict(period=2), 6)) + (("Supertrend", dict(period=2), 8),) + ((("ATR", dict(period=3), 10), ("Supertrend", dict(period=3), 10)) if tier == "thorough" else ()):
+        obs.append(Ob(f"live-T2-feed/{name}{kw}/n={n}", dict(spec=["ind", name, kw], n=n, feed="live-T2"), DEF, weight=n * 3, budget_s=300 if tier == "quick" else 2400, max_paths=100000))
     for cv in (True, False):
         n = 4 if tier == "quick" else 6
         obs.append(Ob(f"Counter(count_value={cv})/n={n}", dict(n=n, count_value=cv), DEF, fn="run_counter", weight=n, budget_s=600))
